@@ -366,6 +366,43 @@ def _suffix_helpers(prog, cg, chk, W2, roots):
         chk.fail_broken('W2: the file-name / extension helpers were not found among the callees of the path writers')
 
 
+def _helper_statements(prog, cg, eff, cls, trace):
+    """Statements a creator executes through helpers that are not virtual members of the creator object - a
+    static member or free function that sibling creators share (the rows every new database starts out with,
+    factored out of the per-version create() bodies).  The creation trace follows this-> calls (they depend on
+    the dynamic class); any other repository callee of the functions on the trace is resolved statically, so
+    its statements, and those of its callees, belong to the creator as well."""
+    from .. import schemas
+    funcs = {}
+    f0 = schemas.final_overrider(prog, cls, 'create')
+    if f0 is not None:
+        funcs[f0.key] = f0
+    for e in trace:
+        funcs[e.func.key] = e.func
+        for cf, _node in e.frames:
+            funcs[cf.key] = cf
+    out, seen = [], set(funcs)
+    for g in list(funcs.values()):
+        for edge in cg.edges(g):
+            n = edge.node
+            if n.get('kind') == 'CXXMemberCallExpr':
+                callee = strip(children(n)[0])
+                recv = strip(children(callee)[0]) if callee.get('kind') == 'MemberExpr' and children(callee) else None
+                if recv is not None and recv.get('kind') == 'CXXThisExpr':
+                    continue        # followed by the trace, with the dynamic class
+            for t in edge.targets:
+                if t.body is None or t.is_pattern or not prog.in_repo(t.file) or t.key in seen:
+                    continue
+                for key, (h, _p, _n) in cg.reachable([t], stop=lambda x: not prog.in_repo(x.file)).items():
+                    if key in seen or h.body is None or h.is_pattern:
+                        continue
+                    seen.add(key)
+                    for s_ in eff.sites(h):
+                        if s_.stored_in is not None:
+                            out.append(s_.stored_in)
+    return out
+
+
 def _default_rows(prog, cg, eff, chk, W9):
     """A constant the track writers store in a foreign-key column (the "no album art" id) names a row
     of the referenced table; every supported creator of the generation must insert that row, or
@@ -404,11 +441,11 @@ def _default_rows(prog, cg, eff, chk, W9):
                     for a_, b_ in zip(cols, rcols or ['id']):
                         fks[a_.lower()] = (rt, b_)
             trace = schemas.creation_trace(prog, fmap[en])
+            executed = [e.stmt for e in trace] + _helper_statements(prog, cg, eff, fmap[en], trace)
             for col, (rt, rc) in sorted(fks.items()):
                 for (k, loc) in sorted(consts.get(col, ())):
                     rows = []
-                    for e in trace:
-                        st = e.stmt
+                    for st in executed:
                         if st.kind == 'insert' and (st.table or '').lower() == rt.lower() and st.rows:
                             names = [c.lower() for c in st.columns] if st.columns else None
                             for row in st.rows:
